@@ -1,7 +1,6 @@
 package props
 
 import (
-	"encoding/hex"
 	"fmt"
 	"strings"
 )
@@ -17,86 +16,6 @@ func loadClass(o string) string {
 	}
 }
 
-// MetaLoadOrder (C17, direct on the real loader): the same top-level definitions in several orders and
-// partitions must give the same verdict and, when they load, the same schema up to order.
-// Returns (cases, verdict differences, schema differences).
-func (c *Ctx) MetaLoadOrder(tokLists [][]sdlTok, orderings int) (int, int, int) {
-	type variant struct {
-		item int
-		set  []string
-	}
-	var vs []variant
-	for i, t := range tokLists {
-		vs = append(vs, variant{i, []string{renderToks(nil, t)}})
-		for k := 1; k < orderings; k++ {
-			vs = append(vs, variant{i, splitSources(c.R, t, 1+k%3)})
-		}
-	}
-	reqs := make([]string, len(vs))
-	for i, v := range vs {
-		reqs[i] = "loadcanon " + hexAll(v.set)
-	}
-	res := c.Worker.Map(reqs)
-	nv, ns := 0, 0
-	type best struct {
-		n      int
-		a, b   []string
-		oa, ob string
-	}
-	show := func(o string) string {
-		if strings.HasPrefix(o, "C:") {
-			b, _ := hex.DecodeString(o[2:])
-			return string(b)
-		}
-		return describeObs(o)
-	}
-	bests := map[string]*best{}
-	note := func(sig string, a, b []string, oa, ob string) {
-		x := bests[sig]
-		if x == nil {
-			x = &best{a: a, b: b, oa: oa, ob: ob}
-			bests[sig] = x
-		}
-		x.n++
-		if totalLen(a)+totalLen(b) < totalLen(x.a)+totalLen(x.b) {
-			x.a, x.b, x.oa, x.ob = a, b, oa, ob
-		}
-	}
-	first := map[int]int{}
-	for i, v := range vs {
-		f, ok := first[v.item]
-		if !ok {
-			first[v.item] = i
-			continue
-		}
-		ca, cb := loadClass(res[f]), loadClass(res[i])
-		// parse errors are the parser's business: splitting can only change them if a chunk boundary was misjudged
-		if ca == "err" && LoadTemplateOf(errMessage(res[f])) == "" || cb == "err" && LoadTemplateOf(errMessage(res[i])) == "" {
-			continue
-		}
-		if ca != cb {
-			nv++
-			tmpl := LoadTemplateOf(errMessage(res[f])) + LoadTemplateOf(errMessage(res[i]))
-			note("load-verdict-depends-on-order:"+ca+"/"+cb+":"+tmpl, vs[f].set, v.set, res[f], res[i])
-		} else if ca == "ok" && res[f] != res[i] {
-			ns++
-			da, _ := firstDiffLine(show(res[f]), show(res[i]))
-			w := strings.FieldsFunc(da, func(r rune) bool { return r == ' ' || r == '=' || r == '(' })
-			k := "?"
-			if len(w) > 0 {
-				k = w[0]
-			}
-			note("loaded-schema-depends-on-order:"+k, vs[f].set, v.set, res[f], res[i])
-		}
-	}
-	for sig, x := range bests {
-		da, db := firstDiffLine(show(x.oa), show(x.ob))
-		c.Report("spec", sig, fmt.Sprintf("%d cases; smallest: %q vs %q: [%s] vs [%s]", x.n, x.a, x.b, clipL(da), clipL(db)),
-			map[string]any{"op": "loadcanon", "sources_a": x.a, "sources_b": x.b, "a": clipL(da), "b": clipL(db)})
-	}
-	return len(vs), nv, ns
-}
-
 func firstDiffLine(a, b string) (string, string) {
 	la, lb := strings.Split(a, "\n"), strings.Split(b, "\n")
 	for i := 0; i < len(la) && i < len(lb); i++ {
@@ -105,40 +24,4 @@ func firstDiffLine(a, b string) (string, string) {
 		}
 	}
 	return fmt.Sprint(len(la), " lines"), fmt.Sprint(len(lb), " lines")
-}
-
-func init() {
-	Checks["X-loadorder"] = func(c *Ctx) {
-		corpus := loadCorpus()
-		var toks [][]sdlTok
-		for _, s := range corpus {
-			t := sdlTokens(s)
-			if len(t) > 0 && len(t) < 3000 && !strings.Contains(s, "\r") {
-				toks = append(toks, t) // (inputs with CR inside block strings re-render ambiguously: lexer test data, skipped)
-			}
-		}
-		items := append([][]sdlTok(nil), toks...)
-		n := c.Pick(20000, 200000)
-		if v := envIntL("XLOAD_N"); v > 0 {
-			n = v
-		}
-		for i := 0; i < n; i++ {
-			t := toks[c.R.Intn(len(toks))]
-			if c.R.Chance(1, 6) {
-				t = append(cloneToks(t), toks[c.R.Intn(len(toks))]...)
-			}
-			for m := 1 + c.R.Intn(3); m > 0; m-- {
-				t = mutateSDL(c.R, t)
-			}
-			items = append(items, t)
-		}
-		total, nv, ns := 0, 0, 0
-		for lo := 0; lo < len(items); lo += 2000 {
-			hi := min(lo+2000, len(items))
-			a, b, d := c.MetaLoadOrder(items[lo:hi], 4)
-			total, nv, ns = total+a, nv+b, ns+d
-		}
-		fmt.Printf("load order: %d schemas x 4 orderings/partitions = %d loads; verdict differences %d, schema differences %d\n", len(items), total, nv, ns)
-		c.Ev.Evals = total
-	}
 }
